@@ -58,7 +58,10 @@ func HarnessC13a() {
 	bf := uint(verifBound("BF"))
 	st := newVStore("s1")
 	cfg := symConfig(st, nil)
-	t0, err := NewRoot(&CreateRemoteOptions{BranchFactor: bf}).LoadMast(vctx, cfg)
+	fm := verifBoundOr("FMT", 0) // 0 binary, 1 v1marshaler (raw two-stage decode), 2 v1marshaler (registered types)
+	cfg.UnmarshalerUsesRegisteredTypes = fm == 2
+	persistV1 = fm != 0
+	t0, err := NewRoot(&CreateRemoteOptions{BranchFactor: bf, NodeFormat: fmtOf(fm)}).LoadMast(vctx, cfg)
 	verifAssert("C01.new.err", err == nil)
 	md0 := &symModel{}
 	if verifBoundOr("ASC", 0) == 1 {
